@@ -88,24 +88,28 @@ theorem deserAll_mem : ∀ {rs : List ROov} {cx : List (ProvCfg × RxExtra)}, de
 
 theorem setUpROov_typed {v : Variant} {cdef : List (List Char)} {g g' : Grammar} {r : ROov} {p : Prov} {x : RxExtra}
     (h : setUpROov v cdef g r = ok (g', (p, x))) :
-    ∃ cfg, deserOov r = some (cfg, x) ∧ setUpProv v cdef g cfg = ok (g', p) := by
+    ∃ cfg, deserOov r = some (cfg, x) ∧ setUpProv v cdef g cfg = ok (g', p) ∧ x.rxOk = true := by
   unfold setUpROov at h
   split at h
   · cases h
   · rename_i cfg x' hd
     obtain ⟨gp, h1, h2⟩ := Outcome.bind_eq_ok.mp h
+    split at h2
+    rotate_left
+    · cases h2
+    rename_i hrx
     injection h2 with h2
     simp only [Prod.mk.injEq] at h2
     obtain ⟨e1, e2, e3⟩ := h2
     subst e1 e2 e3
-    exact ⟨cfg, hd, h1⟩
+    exact ⟨cfg, hd, h1, hrx⟩
 
 theorem setUpROov_safe (v : Variant) (cdef : List (List Char)) (g : Grammar) (r : ROov) :
     (setUpROov v cdef g r).isSafe = true := by
   unfold setUpROov
   split
   · rfl
-  · exact bind_safe (setUpProv_safe v cdef g _) (fun _ _ => rfl)
+  · exact bind_safe (setUpProv_safe v cdef g _) (fun _ _ => by split <;> rfl)
 
 theorem setUpROovs_typed {v : Variant} {cdef : List (List Char)} (rs : List ROov) :
     ∀ {g g' : Grammar} {pxs : List (Prov × RxExtra)}, setUpROovs v cdef g rs = ok (g', pxs) →
@@ -139,6 +143,36 @@ theorem setUpROovs_typed {v : Variant} {cdef : List (List Char)} (rs : List ROov
     · simp only [List.map_cons]
       rw [hx]
 
+/-- every provider of a successful set-up has a pattern the regex crate compiled -/
+theorem setUpROovs_rxOk {v : Variant} {cdef : List (List Char)} (rs : List ROov) :
+    ∀ {g g' : Grammar} {pxs : List (Prov × RxExtra)}, setUpROovs v cdef g rs = ok (g', pxs) →
+    ∀ px ∈ pxs, px.2.rxOk = true := by
+  induction rs with
+  | nil =>
+    intro g g' pxs h
+    simp only [setUpROovs] at h
+    injection h with h
+    simp only [Prod.mk.injEq] at h
+    intro px hpx
+    rw [← h.2] at hpx
+    cases hpx
+  | cons r rest ih =>
+    intro g g' pxs h
+    simp only [setUpROovs] at h
+    obtain ⟨gp, h1, h2⟩ := Outcome.bind_eq_ok.mp h
+    obtain ⟨gps, h3, h4⟩ := Outcome.bind_eq_ok.mp h2
+    injection h4 with h4
+    simp only [Prod.mk.injEq] at h4
+    obtain ⟨e1, e2⟩ := h4
+    subst e1 e2
+    obtain ⟨g1, p1, x1⟩ := gp
+    obtain ⟨_, _, _, hrx⟩ := setUpROov_typed h1
+    intro px hpx
+    simp only [List.mem_cons] at hpx
+    rcases hpx with hpx | hpx
+    · subst hpx; exact hrx
+    · exact ih h3 px hpx
+
 theorem setUpROovs_safe (v : Variant) (cdef : List (List Char)) (rs : List ROov) :
     ∀ (g : Grammar), (setUpROovs v cdef g rs).isSafe = true := by
   induction rs with
@@ -150,15 +184,15 @@ theorem setUpROovs_safe (v : Variant) (cdef : List (List Char)) (rs : List ROov)
 
 /-! ## input text and path rewrite plugins -/
 
-theorem setUpInput_safe (ym : Nat) (r : RInput) : (setUpInput ym r).isSafe = true := by
+theorem setUpInput_safe (r : RInput) : (setUpInput r).isSafe = true := by
   cases r <;> simp only [setUpInput] <;> (repeat' (first | split | dsimp only)) <;> rfl
 
-theorem setUpInputs_safe (ym : Nat) (rs : List RInput) : (setUpInputs ym rs).isSafe = true := by
+theorem setUpInputs_safe (rs : List RInput) : (setUpInputs rs).isSafe = true := by
   induction rs with
   | nil => rfl
   | cons r rest ih =>
     simp only [setUpInputs]
-    exact bind_safe (setUpInput_safe ym r) (fun _ _ => ih)
+    exact bind_safe (setUpInput_safe r) (fun _ _ => ih)
 
 theorem setUpPath_safe (np : Pos) (pl : List Pos) (r : RPath) : (setUpPath np pl r).isSafe = true := by
   cases r <;> simp only [setUpPath] <;> (repeat' (first | split | dsimp only)) <;> rfl
@@ -171,7 +205,7 @@ theorem setUpPaths_safe (np : Pos) (pl : List Pos) (rs : List RPath) : (setUpPat
     exact bind_safe (setUpPath_safe np pl r) (fun _ _ => bind_safe ih (fun _ _ => rfl))
 
 /-- what an accepted IgnoreYomigana configuration looks like -/
-theorem yomigana_ok {ym : Nat} {lb rb ml : JF} (h : setUpInput ym (.yomigana lb rb ml) = ok ()) :
+theorem yomigana_ok {ym : Nat} {lb rb ml : JF} (h : setUpInput (.yomigana lb rb ml ym) = ok ()) :
     ∃ (l r : List (List Char)) (n : Nat), lb = .strs l ∧ rb = .strs r ∧ ml = .int n ∧
       l ≠ [] ∧ r ≠ [] ∧ (∀ s ∈ l, charCount s = 1) ∧ (∀ s ∈ r, charCount s = 1) ∧ 1 ≤ n ∧ n ≤ ym := by
   simp only [setUpInput] at h
@@ -192,7 +226,7 @@ theorem yomigana_ok {ym : Nat} {lb rb ml : JF} (h : setUpInput ym (.yomigana lb 
   · cases h
 
 /-- what an accepted ProlongedSoundMark configuration looks like -/
-theorem prolonged_ok {ym : Nat} {marks repl : JF} (h : setUpInput ym (.prolonged marks repl) = ok ()) :
+theorem prolonged_ok {marks repl : JF} (h : setUpInput (.prolonged marks repl) = ok ()) :
     ∃ ms : List (List Char), marks = .strs ms ∧ ms ≠ [] ∧ (∀ s ∈ ms, charCount s = 1) ∧ deOptStr repl = true := by
   simp only [setUpInput] at h
   split at h
@@ -224,36 +258,56 @@ theorem katakana_ok {np : Pos} {pl : List Pos} {pos ml : JF} {id n : Nat}
 
 /-! ## user dictionaries -/
 
-theorem mergeUsers_safe (v2 : Variant2) (m : Matrix) (us : List UDic) : ∀ (pl : List Pos),
-    (mergeUsers v2 m pl us).isSafe = true := by
+theorem mergeUsers_safe (v2 : Variant2) (m : Matrix) (us : List UDic) : ∀ (nd : Nat) (pl : List Pos),
+    (mergeUsers v2 m nd pl us).isSafe = true := by
   induction us with
-  | nil => intro pl; rfl
+  | nil => intro nd pl; rfl
   | cons u rest ih =>
-    intro pl
+    intro nd pl
     simp only [mergeUsers]
     split
     · rfl
-    · exact ih _
+    · split
+      · rfl
+      · split
+        · rfl
+        · exact ih _ _
 
-theorem mergeUsers_ok {v2 : Variant2} {m : Matrix} (us : List UDic) : ∀ {pl pl' : List Pos},
-    mergeUsers v2 m pl us = ok pl' →
+theorem mergeUsers_ok {v2 : Variant2} {m : Matrix} (us : List UDic) : ∀ {nd : Nat} {pl pl' : List Pos},
+    mergeUsers v2 m nd pl us = ok pl' →
     pl' = pl ++ (us.map (·.pos)).flatten ∧
-    (v2.udic = true → ∀ u ∈ us, ∀ w ∈ u.words, udicBad m w = false) := by
+    (v2.udic = true → ∀ u ∈ us, ∀ w ∈ u.words, udicBad m w = false) ∧
+    (us ≠ [] → nd + us.length ≤ MAX_DICTIONARIES) ∧ (us ≠ [] → pl'.length ≤ 65536) := by
   induction us with
   | nil =>
-    intro pl pl' h
+    intro nd pl pl' h
     simp only [mergeUsers] at h
     injection h with h
     subst h
-    exact ⟨by simp, fun _ u hu => by cases hu⟩
+    exact ⟨by simp, fun _ u hu => (by cases hu), fun h => absurd rfl h, fun h => absurd rfl h⟩
   | cons u rest ih =>
-    intro pl pl' h
+    intro nd pl pl' h
     simp only [mergeUsers] at h
     split at h
     · cases h
     · rename_i hc
-      obtain ⟨e, hw⟩ := ih h
-      refine ⟨by rw [e]; simp [List.append_assoc], fun hu u' hu' w hw' => ?_⟩
+      split at h
+      · cases h
+      rename_i hsz
+      split at h
+      · cases h
+      rename_i hnd
+      obtain ⟨e, hw, hcount, hlen⟩ := ih h
+      refine ⟨by rw [e]; simp [List.append_assoc], fun hu u' hu' w hw' => ?_, ?_, ?_⟩
+      rotate_left
+      · intro _
+        cases rest with
+        | nil => simp only [List.length_cons, List.length_nil]; omega
+        | cons a b => have := hcount (by simp); simp only [List.length_cons] at this ⊢; omega
+      · intro _
+        cases rest with
+        | nil => simp only [List.map_nil, List.flatten_nil, List.append_nil] at e; rw [e, List.length_append]; omega
+        | cons a b => exact hlen (by simp)
       simp only [List.mem_cons] at hu'
       rcases hu' with hu' | hu'
       · subst hu'
@@ -279,15 +333,101 @@ theorem udicBad_false {m : Matrix} {w : Int × Int} (h : udicBad m w = false) (h
   rw [asU16_toNat hw (by omega), asU16_toNat h2 (by omega)]
   exact ⟨h1, h3⟩
 
+/-! ## `inhibitPair` -/
+
+def deInhAll : List RInh → Option (List (List (Int × Int)))
+  | [] => some []
+  | r :: rest =>
+    match deInh r, deInhAll rest with
+    | some a, some as => some (a :: as)
+    | _, _ => none
+
+theorem deInhAll_mem : ∀ {rs : List RInh} {ti : List (List (Int × Int))}, deInhAll rs = some ti →
+    ∀ r ∈ rs, ∃ ps, deInh r = some ps
+  | [], _, _ => fun r hr => by cases hr
+  | a :: rest, ti, h => by
+    simp only [deInhAll] at h
+    split at h
+    · rename_i pa pas ha hrest
+      intro r hr
+      simp only [List.mem_cons] at hr
+      rcases hr with hr | hr
+      · subst hr; exact ⟨pa, ha⟩
+      · exact deInhAll_mem hrest r hr
+    · cases h
+
+theorem inhSetUpsR_typed {v : Variant} {g : Grammar} (rs : List RInh) : ∀ {as : List (List (Int × Int))},
+    inhSetUpsR v g rs = ok as → ∃ ti, deInhAll rs = some ti ∧ inhSetUps v g ti = ok as := by
+  induction rs with
+  | nil =>
+    intro as h
+    simp only [inhSetUpsR] at h
+    injection h with h
+    subst h
+    exact ⟨[], rfl, rfl⟩
+  | cons r rest ih =>
+    intro as h
+    simp only [inhSetUpsR] at h
+    split at h
+    · cases h
+    · rename_i ps hps
+      obtain ⟨a, ha, h⟩ := Outcome.bind_eq_ok.mp h
+      obtain ⟨as', has, h⟩ := Outcome.bind_eq_ok.mp h
+      injection h with h
+      subst h
+      obtain ⟨ti, hti, hs⟩ := ih has
+      refine ⟨ps :: ti, by simp [deInhAll, hps, hti], ?_⟩
+      simp [inhSetUps, ha, hs]
+
+theorem inhSetUpsR_safe (v : Variant) (g : Grammar) (rs : List RInh) : (inhSetUpsR v g rs).isSafe = true := by
+  induction rs with
+  | nil => rfl
+  | cons r rest ih =>
+    simp only [inhSetUpsR]
+    split
+    · rfl
+    · exact bind_safe (inhSetUp_safe v g _) (fun _ _ => bind_safe ih (fun _ _ => rfl))
+
+/-- what a deserialised `inhibitPair` looks like: every member has exactly two elements, both integers in `i16` -/
+theorem dePairs_shape : ∀ {ms : List (List JF)} {ps : List (Int × Int)}, dePairs ms = some ps →
+    ∀ m ∈ ms, ∃ x y : Int, m = [.int x, .int y] ∧ -32768 ≤ x ∧ x ≤ 32767 ∧ -32768 ≤ y ∧ y ≤ 32767
+  | [], _, _ => fun m hm => by cases hm
+  | m0 :: rest, ps, h => by
+    simp only [dePairs] at h
+    split at h
+    · rename_i p ps' hp hrest
+      intro m hm
+      simp only [List.mem_cons] at hm
+      rcases hm with hm | hm
+      · subst hm
+        unfold dePair at hp
+        split at hp
+        · rename_i a b
+          split at hp
+          · rename_i x y hx hy
+            have ex : a = .int x ∧ -32768 ≤ x ∧ x ≤ 32767 := by
+              cases a <;> simp [deI16] at hx
+              rename_i z; exact ⟨by rw [hx.2], by omega, by omega⟩
+            have ey : b = .int y ∧ -32768 ≤ y ∧ y ≤ 32767 := by
+              cases b <;> simp [deI16] at hy
+              rename_i z; exact ⟨by rw [hy.2], by omega, by omega⟩
+            exact ⟨x, y, by rw [ex.1, ey.1], ex.2.1, ex.2.2, ey.2.1, ey.2.2⟩
+          · cases hp
+        · cases hp
+      · exact dePairs_shape hrest m hm
+    · cases h
+
 /-! ## the whole raw load -/
 
 /-- the raw load succeeds only through a successful typed load of the deserialised settings -/
-theorem loadR_typed {v : Variant} {v2 : Variant2} {ym : Nat} {cdef : List (List Char)} {np : Pos} {g : Grammar}
-    {cfg : RCfg} {ld : LoadedR} (h : loadR v v2 ym cdef np g cfg = ok ld) :
-    ∃ cx, deserAll cfg.oov = some cx ∧ ld.provs.map (·.2) = cx.map (·.2) ∧
-      load v cdef g ⟨cfg.inh, cx.map (·.1), cfg.users.map (·.pos)⟩ = ok ⟨ld.g, ld.provs.map (·.1)⟩ ∧
-      (∃ u, setUpInputs ym cfg.input = ok u) ∧
-      (v2.udic = true → ∀ u ∈ cfg.users, ∀ w ∈ u.words, udicBad ld.g.conn w = false) := by
+theorem loadR_typed {v : Variant} {v2 : Variant2} {cdef : List (List Char)} {np : Pos} {g : Grammar}
+    {cfg : RCfg} {ld : LoadedR} (h : loadR v v2 cdef np g cfg = ok ld) :
+    ∃ ti cx, deInhAll cfg.inh = some ti ∧ deserAll cfg.oov = some cx ∧ ld.provs.map (·.2) = cx.map (·.2) ∧
+      load v cdef g ⟨ti, cx.map (·.1), cfg.users.map (·.pos)⟩ = ok ⟨ld.g, ld.provs.map (·.1)⟩ ∧
+      (∃ u, setUpInputs cfg.input = ok u) ∧
+      (v2.udic = true → ∀ u ∈ cfg.users, ∀ w ∈ u.words, udicBad ld.g.conn w = false) ∧
+      cfg.users.length + 1 ≤ MAX_DICTIONARIES ∧ (cfg.users ≠ [] → ld.g.pos.length ≤ 65536) ∧
+      (∀ px ∈ ld.provs, px.2.rxOk = true) := by
   unfold loadR at h
   obtain ⟨inh, h1, h⟩ := Outcome.bind_eq_ok.mp h
   obtain ⟨u, h2, h⟩ := Outcome.bind_eq_ok.mp h
@@ -302,8 +442,13 @@ theorem loadR_typed {v : Variant} {v2 : Variant2} {ym : Nat} {cdef : List (List 
     subst h
     obtain ⟨g1, pxs⟩ := gp
     obtain ⟨cx, hcx, hps, hx⟩ := setUpROovs_typed cfg.oov h3
-    obtain ⟨hpl, hud⟩ := mergeUsers_ok cfg.users h6
-    refine ⟨cx, hcx, hx, ?_, ⟨u, h2⟩, hud⟩
+    obtain ⟨hpl, hud, hcnt, hlen⟩ := mergeUsers_ok cfg.users h6
+    obtain ⟨ti, hti, h1⟩ := inhSetUpsR_typed cfg.inh h1
+    refine ⟨ti, cx, hti, hcx, hx, ?_, ⟨u, h2⟩, hud, ?_, hlen, setUpROovs_rxOk cfg.oov h3⟩
+    rotate_left
+    · cases hu : cfg.users with
+      | nil => simp [MAX_DICTIONARIES]
+      | cons a b => have := hcnt (by rw [hu]; simp); rw [hu] at this; omega
     have hne' : (pxs.map (·.1)).isEmpty = false := by
       cases pxs with
       | nil => simp at hne
@@ -311,25 +456,26 @@ theorem loadR_typed {v : Variant} {v2 : Variant2} {ym : Nat} {cdef : List (List 
     simp only [load, h1, hps, hne', h5, hpl]
     simp
 
-theorem loadR_safe {v : Variant} (hv : v.inhChecked = true) (v2 : Variant2) (ym : Nat) (cdef : List (List Char))
+theorem loadR_safe {v : Variant} (hv : v.inhChecked = true) (v2 : Variant2) (cdef : List (List Char))
     (np : Pos) (g : Grammar) (cfg : RCfg) (hnl : g.conn.nl ≤ 65535) (hnr : g.conn.nr ≤ 65535) (hwf : g.conn.WF) :
-    (loadR v v2 ym cdef np g cfg).isSafe = true := by
+    (loadR v v2 cdef np g cfg).isSafe = true := by
   unfold loadR
-  refine bind_safe (inhSetUps_safe v g cfg.inh) (fun inh hinh => ?_)
-  refine bind_safe (setUpInputs_safe ym cfg.input) (fun _ _ => ?_)
+  refine bind_safe (inhSetUpsR_safe v g cfg.inh) (fun inh hinh => ?_)
+  refine bind_safe (setUpInputs_safe cfg.input) (fun _ _ => ?_)
   refine bind_safe (setUpROovs_safe v cdef cfg.oov g) (fun gp hgp => ?_)
   refine bind_safe (setUpPaths_safe np gp.1.pos cfg.path) (fun _ _ => ?_)
   split
   · rfl
   · obtain ⟨g1, pxs⟩ := gp
     obtain ⟨cx, _, hps, _⟩ := setUpROovs_typed cfg.oov hgp
-    have hi := inhSetUps_ok cfg.inh hinh
+    obtain ⟨ti, _, hinh⟩ := inhSetUpsR_typed cfg.inh hinh
+    have hi := inhSetUps_ok ti hinh
     have hp := setUpProvs_ok (cx.map (·.1)) hnl hnr hps
     have hwf1 : g1.conn.WF := by rw [hp.1]; exact hwf
     have := inhEdits_ok v.debug inh g1.conn hwf1 (by rw [hp.1]; omega) (by rw [hp.1]; omega)
       (by rw [hi.1, hp.1]; exact hi.2 hv)
     simp only [this, Outcome.bind]
-    exact bind_safe (mergeUsers_safe v2 _ cfg.users _) (fun _ _ => rfl)
+    exact bind_safe (mergeUsers_safe v2 _ cfg.users _ _) (fun _ _ => rfl)
 
 /-! ## the slice of the regex provider -/
 
